@@ -275,6 +275,11 @@ func (g *G) varsOf(k Kind) []*Var {
 
 func (g *G) L(x Expr) Expr {
 	g.usesL = true
+	if g.chance(8, "Lspread") {
+		// the same call written with a spread argument
+		g.f("go-call-spread")
+		return &Call{Fn: Id("L"), Args: []Expr{&ArrayLit{Elems: []Expr{x}}}, Spread: true}
+	}
 	return &Call{Fn: Id("L"), Args: []Expr{x}}
 }
 
@@ -531,7 +536,13 @@ func (g *G) strExpr(d int) Expr {
 		}
 		return g.strLit()
 	}
-	switch g.pick(7, "strexpr") {
+	switch g.pick(8, "strexpr") {
+	case 6:
+		// slice of a literal with bounds that are always valid, written as int / uint / char literals
+		s := []string{"abc", "x y", "abcdef", "a"}[g.pick(4, "slstr")]
+		lo, hi := g.sliceBounds(len(s))
+		g.f("slice-typed-bounds")
+		return &Slice{X: StrLit(s), Lo: lo, Hi: hi}
 	case 0, 1:
 		return &Binary{Op: "+", L: g.strExpr(d - 1), R: g.expr([]Kind{KStr, KInt, KBool}[g.pick(3, "catk")], d-1)}
 	case 2:
@@ -582,13 +593,46 @@ func (g *G) boolExpr(d int) Expr {
 	return BoolLit(g.chance(50, "bl2"))
 }
 
+// idxLit writes index i as an int, uint or char literal.
+func (g *G) idxLit(i int) Expr {
+	switch g.pick(3, "idxkind") {
+	case 0:
+		return &Lit{Kind: LUint, U: uint64(i)}
+	case 1:
+		return &Lit{Kind: LChar, I: int64(i)}
+	}
+	return IntLit(int64(i))
+}
+
+// sliceBounds draws valid bounds 0 <= lo <= hi <= n (either may be omitted).
+func (g *G) sliceBounds(n int) (lo, hi Expr) {
+	l := g.intn(0, n, "sllo")
+	h := g.intn(l, n, "slhi")
+	if l > 0 || g.chance(50, "sllo-explicit") {
+		lo = g.idxLit(l)
+	}
+	if h < n || g.chance(50, "slhi-explicit") {
+		hi = g.idxLit(h)
+	}
+	return lo, hi
+}
+
 func (g *G) elemExpr(d int) Expr {
 	return g.expr([]Kind{KInt, KStr, KBool, KInt}[g.pick(4, "elemk")], d)
 }
 
 func (g *G) arrExpr(d int) Expr {
 	if d > 0 {
-		switch g.pick(5, "arrexpr") {
+		switch g.pick(6, "arrexpr") {
+		case 5:
+			n := g.intn(1, 4, "sllen")
+			a := &ArrayLit{}
+			for i := 0; i < n; i++ {
+				a.Elems = append(a.Elems, g.elemExpr(d-1))
+			}
+			lo, hi := g.sliceBounds(n)
+			g.f("slice-typed-bounds")
+			return &Slice{X: a, Lo: lo, Hi: hi}
 		case 0:
 			if vs := g.varsOf(KArr); len(vs) > 0 {
 				if e, ok := g.bcall("append", Id(vs[g.pick(len(vs), "av")].Name), g.elemExpr(d-1)); ok {
